@@ -509,6 +509,8 @@ async def run(ctx) -> None:
         except Exception as err:  # noqa
             outcome = f"{type(err).__name__}: {err}"[:160]
         written = any(b" 0016 002 00" in d for (_t, _n, d) in hub.writes[w0:])
+        if not written and len(hub.writes) == w0:  # refused at once (queue full of the library's own requests)? then the
+            await asyncio.sleep(8.0)                # sender must at least be seen working on them
         if not written and len(hub.writes) > w0:
             ctx.probe("probe_cmd_queued_behind_the_library's_own_requests")  # the sender is alive and busy: not judged
         elif not written:
